@@ -62,7 +62,9 @@ func (fs *FileSystem) Store(bom *sbom.Document, opts *StoreOptions) error {
 		return fmt.Errorf("the specified filsystem backend patch is not a directory")
 	}
 
-	if bom.Metadata == nil || bom.Metadata.Id == "" {
+	// The generated getters are nil-safe: a nil document or a document without
+	// metadata simply has no identifier.
+	if bom.GetMetadata().GetId() == "" {
 		return fmt.Errorf("unable to persist document: no document id set")
 	}
 
@@ -72,7 +74,7 @@ func (fs *FileSystem) Store(bom *sbom.Document, opts *StoreOptions) error {
 		return fmt.Errorf("marshalling protobom to binary form: %w", err)
 	}
 
-	filename, err := generateDocFileName(bom.Metadata.Id)
+	filename, err := generateDocFileName(bom.GetMetadata().GetId())
 	if err != nil {
 		return err
 	}
